@@ -8,10 +8,26 @@ def explore(chk, c_exe, m_exe):
     vlib.run_scripts(chk, heap, c_exe, m_exe, heap.corpus(), heap.oracle)
     # closure: every heap of up to 7 elements over 3 priorities reachable by any
     # interleaving of push/pop (+ get/size/clear), states up to renaming of ids
-    max_n, nprio = 7, 3
+    max_n, nprio = (7, 3) if quick else (9, 3)
+    transitions = []
+
+    def recording_oracle(prop, script, c_lines):
+        transitions.append(script)
+        return heap.oracle(prop, script, c_lines)
+
     closed = vlib.closure(chk, heap.NAME, c_exe, m_exe, [], heap.closure_alphabet(max_n, nprio),
-                          max_depth=40, max_states=20000, oracle=heap.oracle,
+                          max_depth=40, max_states=20000, oracle=recording_oracle,
                           state_of=heap.closure_state)
+    # every transition of the closure once more, followed by a drain, so that the
+    # oracle sees the consequences of the last operation (the closure itself
+    # continues from one representative history per state)
+    vlib.run_scripts(chk, heap, c_exe, m_exe,
+                     [heap.drained(sc) for sc in transitions if sc[-1].split()[0] in ("push", "pop", "clear")],
+                     heap.oracle)
+    # every push/pop history of a fixed length over 3 priorities, drained
+    hist_len = 6 if quick else 8
+    vlib.run_scripts(chk, heap, c_exe, m_exe, heap.all_histories(hist_len, 3), heap.oracle)
+    chk.extra["all_histories"] = "every sequence of %d operations from {push 0, push 1, push 2, pop}, then drained" % hist_len
     chk.exhaustive = closed
     chk.extra["scope"] = ("closure: every state reachable with at most %d elements over %d priorities "
                           "(states up to renaming of element addresses), every operation from every "
@@ -24,7 +40,7 @@ def explore(chk, c_exe, m_exe):
         rnd += heap.random_scripts(chk.rng, 3, 8000, 1000, nprios=(0, 5, 40))
     else:
         rnd = heap.random_scripts(chk.rng, 30, 3000, 150)
-        rnd += heap.random_scripts(chk.rng, 8, 14000, 1000, nprios=(0, 5, 40))
+        rnd += heap.random_scripts(chk.rng, 12, 20000, 1000, nprios=(0, 5, 40))
     live = 0
     for sc in rnd:
         n = mx = 0
@@ -60,12 +76,30 @@ def search_near(chk, c_exe, m_exe):
     vlib.run_scripts(chk, heap, c_exe, m_exe, [s for s in near if heap.in_domain(s)], heap.oracle)
 
 
+def shortest_first(chk):
+    """report the shortest failing inputs, cut after the operation that fails"""
+    import re
+    for f in chk.oracle_failures:
+        m = re.match(r"op (\d+) ", f["what"])
+        if m:
+            k = int(m.group(1)) + 1
+            f["script"] = f["script"][:k]
+            if f.get("impl_output"):
+                f["impl_output"] = f["impl_output"][:k]
+    chk.oracle_failures.sort(key=lambda f: len(f["script"]))
+
+
 def run(chk):
+    # the long random histories stay far below the runtime's per-script wall-clock
+    # limit (0.3 s against 4 s), but the machine may be loaded; real hangs are cut
+    # by the harness's own CPU-time watchdog (2 s per operation)
+    vlib.HARNESS_ENV["H_SCRIPT_TIMEOUT"] = "30"
     c_exe, m_exe = vlib.prepare_area(chk, heap, leanchecker=True)
     if c_exe:
         explore(chk, c_exe, m_exe)
         if chk.mismatches and not chk.oracle_failures:
             search_near(chk, c_exe, m_exe)
+        shortest_first(chk)
     return chk.finish(assumptions=[
         "unsigned-int truncation of slot numbers in cstl_heap_find is not modelled (heaps below 2^31 elements)",
         "cstl_heap_promote_child is modelled as exchanging the positions of two elements; its six-neighbour "
